@@ -25,6 +25,9 @@ CHECKS = {
  "C11": dict(engine="grid", design="5 C11", technique="TLA+ transcription of _TabulationCutoff._init_cutoff (Grid.tla) checked by TLC against the declarative decision table for all 216 presence/sign classes; decision table and a decimal commensurate lattice emitted by TLC replayed on ConfigParser, Configuration.read and written tables for both grids",
    text="ImplAgrees (transcription = statement) for every class of (nr, dr, cutoff); the replay runs each class and ~2.5k (quick) / ~70k (thorough) decimal (step, k) pairs typed as decimal strings through the real parser for both grids, and reads row count, spacing and last row back from LAMMPS, setfl and Excel tables.",
    note="The unrepaired-code model (Python truthiness) is kept as Grid_code.cfg and must violate ImplAgrees (anti-vacuity). Two genuine defects repaired (F01, F19)."),
+ "C14": dict(engine="inidoc", design="5 C14", technique="TLA+ transcription of potable's option merge rule and ConfigParser's override/addition application (IniDoc.tla) checked by TLC against text-editor semantics (HandEdit) for every option sequence; every case replayed through the CLI and ConfigParser(overrides=, additional=) and compared with tabulating the hand-edited file; --list-items/--item-value compared with the edited document",
+   text="EditsAreHandEdits and ListEachOnce for every sequence of <=2 (quick) / <=3 (thorough) options over 3 sections x 3 keys x 2 key spellings x 2 values (one empty), 2 base files; each case rendered under two themes (pair model; EAM model whose sections share key texts) and replayed: outcome class and output bytes equal those of the hand-edited file, listing equals the edited document.",
+   note="Options of different kinds are unordered on the command line (overrides, removals, additions); an emptied section may keep or lose its header; identical --remove-item options count once. Defect F06 repaired."),
  "C17": dict(engine="layout", design="5 C17", technique="TLA+ fault model (Layout.tla: EvalFails at every evaluation k, flush discipline per writer) model-checked with TLC; every failing position replayed on the real writers through recording file objects, the potable CLI with a formula leaving its domain, and a second write() on the same object",
    text="TLC checks AllOrNothing / WholeOrNothing for every writer model and every failing evaluation k; the replay makes the k-th evaluation of the real write raise for every k of every model (API routes), makes a formula leave its domain at first/middle/last grid index of every function slot (Configuration and CLI routes, with a pre-existing output file), and requires an empty sink / empty-or-absent file, and that a later write() of the same object emits the whole table or nothing.",
    note="Fault = exception from a user function evaluation; I/O errors of the file system are out of scope. Three genuine defects found and repaired (known_findings.json F11a, F11b, F17)."),
@@ -74,6 +77,7 @@ NA = {}
 ENGINES = {
  "layout": "TLC on spec/Layout.tla (writer step machines x consumer models x fault model) + replay of every emitted case through the real code",
  "multirange": "TLC on spec/MultiRange.tla + replay of every listing on the real multi-range classes",
+ "inidoc": "TLC on spec/IniDoc.tla / Vars.tla / Views.tla + replay of every emitted case through potable and the ConfigParser API against the hand-edited file",
  "grid": "TLC on spec/Grid.tla + replay of the decision table and decimal lattice on the real parser and written tables",
 }
 if __name__ == "__main__":
